@@ -192,8 +192,14 @@ def _agent_loop(rf, wf):
                     out["evaluator"] = ["exc", type(e).__name__]
                 reply(out)
             elif op == "cdumps":
-                b = pickle.dumps(compiled[rq["c"]], protocol=rq["proto"])
-                reply({"ok": True, "bytes": base64.b64encode(b).decode("ascii")})
+                try:
+                    b = pickle.dumps(compiled[rq["c"]], protocol=rq["proto"])
+                    reply({"ok": True, "raised": None,
+                           "bytes": base64.b64encode(b).decode("ascii")})
+                except KeyError:
+                    raise
+                except Exception as e:  # noqa: BLE001
+                    reply({"ok": True, "raised": f"cdumps: {type(e).__name__}: {str(e)[:200]}"})
             elif op == "cloads":
                 try:
                     compiled[rq["c"]] = pickle.loads(base64.b64decode(rq["bytes"]))
